@@ -184,7 +184,10 @@ func c08CloneReg(reg c14Registry) c14Registry {
 }
 
 // c08Gen generates the next request given the current acknowledged registry.
-func c08Gen(r *common.Rand, reg c14Registry, kf03Open bool, realClock bool, firstDef map[string]map[string]*model.GcRule) c08Req {
+func c08Gen(r *common.Rand, reg c14Registry, kf03Open bool, realClock bool, firstDef map[string]map[string]*model.GcRule, valPool ...string) c08Req {
+	if len(valPool) == 0 {
+		valPool = gen.Vals
+	}
 	parent := c14Parents[0]
 	id := common.Pick(r, c14Ids[:2])
 	name := drive.TableName(parent, id)
@@ -288,6 +291,11 @@ func c08Gen(r *common.Rand, reg c14Registry, kf03Open bool, realClock bool, firs
 				fam := common.Pick(r, c14FamPool[:3])
 				rule := c14RandGc(r)
 				switch {
+				case !have[fam] && droppedIds[fam] && kf03Open:
+					// known finding KF03: a request that drops a family and creates it again purges the old cells before
+					// the definition is persisted; such requests are kept out of the crash programs, the canary
+					// reproduces the finding
+					continue
 				case !have[fam]:
 					mods = append(mods, mod{"create", fam, rule})
 					have[fam] = true
@@ -307,11 +315,7 @@ func c08Gen(r *common.Rand, reg c14Registry, kf03Open bool, realClock bool, firs
 				}
 			}
 			points := append(append([]string{}, metaPoints...), "purge.afterRow")
-			if recreate && kf03Open {
-				// known finding KF03: a request that drops a family and creates it again purges the old cells before
-				// the definition is persisted; kept out of the enumerated crash points, reproduced by the canary
-				points = nil
-			}
+			_ = recreate
 			return c08Req{desc: desc + ")", valid: true, crashPoints: points,
 				send: func(s *drive.Srv) drive.Status {
 					ctx, cancel := drive.Ctx()
@@ -376,7 +380,7 @@ func c08Gen(r *common.Rand, reg c14Registry, kf03Open bool, realClock bool, firs
 		for i := 0; i < n; i++ {
 			mu := gen.Mutation(r, gen.Opts{})
 			if r.Chance(2, 3) {
-				mu = model.Mut{Kind: model.SetCell, Qual: common.Pick(r, gen.Quals), TS: common.Pick(r, gen.GoodTS), Val: common.Pick(r, gen.Vals)}
+				mu = model.Mut{Kind: model.SetCell, Qual: common.Pick(r, gen.Quals), TS: common.Pick(r, gen.GoodTS), Val: common.Pick(r, valPool)}
 			}
 			if mu.Kind != model.DelRow {
 				mu.Fam = common.Pick(r, fs)
@@ -387,7 +391,7 @@ func c08Gen(r *common.Rand, reg c14Registry, kf03Open bool, realClock bool, firs
 			muts = append(muts, mu)
 		}
 		v, _ := m.Apply(key, muts, gen.BaseClock)
-		return c08Req{desc: fmt.Sprintf("MutateRow(%s,%q,%s)", id, key, model.MutsString(muts)), valid: v == model.MustOK,
+		return c08Req{desc: fmt.Sprintf("MutateRow(%s,%q,%s)", id, key, truncStr(model.MutsString(muts), 300)), valid: v == model.MustOK,
 			send: func(s *drive.Srv) drive.Status { return drive.MutateRow(s.Data, name, key, muts) },
 			apply: func(reg c14Registry) {
 				if v, nr := reg[name].Apply(key, muts, gen.BaseClock); v != model.MustErr {
@@ -428,7 +432,7 @@ func c08VerifyImage(tag, image string, candidates []c14Registry) string {
 }
 
 func runC08(run *common.Run) {
-	run.Rule = "case = one crash image of the on-disk storage directory of a child emulator process driven by a generated admin+data program (CreateTable with GC rules, MutateRow, DropRowRange prefix/all, ModifyColumnFamilies create/update/drop and multi-modification requests, DeleteTable, re-create): (boundary) the process is frozen with SIGSTOP between two requests and the directory copied; (point) the process freezes itself at an instrumented point inside SetTableMeta / Create / Clear / the row-by-row purge of a dropped family while a request is in flight, the directory is copied and the process killed; (cycle) after such a kill the live directory is restarted and the program continues, up to 5 times; (clean) clean Server.Close stop; (real) the real cbtemulator -dir binary killed with SIGKILL between requests and restarted; (syskill) the child runs under strace and is killed at its N-th unlinkat / rename / mkdir system call, N = 1, 2, ..., over one program in which every fourth request clears a table, then restarted. Each image is verified by starting a fresh emulator process on a private copy: it must come up, and ListTables/GetTable/full scans/NotFound probes must equal the acknowledged model, the in-flight request being wholly applied or wholly absent. Non-trivial = image taken when the model held at least one table with rows and either a request was in flight or an earlier request had removed something (rows, family, table); distinct by image."
+	run.Rule = "case = one crash image of the on-disk storage directory of a child emulator process driven by a generated admin+data program (CreateTable with GC rules, MutateRow, DropRowRange prefix/all, ModifyColumnFamilies create/update/drop and multi-modification requests, DeleteTable, re-create): (boundary) the process is frozen with SIGSTOP between two requests and the directory copied; (point) the process freezes itself at an instrumented point inside SetTableMeta / Create / Clear / the row-by-row purge of a dropped family while a request is in flight, the directory is copied and the process killed; (cycle) after such a kill the live directory is restarted and the program continues, up to 5 times; (clean) clean Server.Close stop; (real) the real cbtemulator -dir binary killed with SIGKILL between requests and restarted; (syskill) the child runs under strace and is killed at its N-th unlinkat / rename / mkdir system call, N = 1, 2, ..., over one program in which every fourth request clears a table, and at its N-th write / pwrite64 system call over a program that stores 33-100 KiB values (journal records spanning several write calls), then restarted. Each image is verified by starting a fresh emulator process on a private copy: it must come up, and ListTables/GetTable/full scans/NotFound probes must equal the acknowledged model, the in-flight request being wholly applied or wholly absent. Non-trivial = image taken when the model held at least one table with rows and either a request was in flight or an earlier request had removed something (rows, family, table); distinct by image."
 	run.Assumptions = []string{"process death only (SIGSTOP image = what kill -9 leaves: completed syscalls persist); power loss / unsynced page cache is out of scope", "crash points = request boundaries + the instrumented points; kills inside leveldb's own write path are not enumerated"}
 	nprog := run.N(12, 300)
 	scratch, err := os.MkdirTemp("", "verif-c08-")
@@ -793,7 +797,11 @@ func c08SyscallKills(run *common.Run, base string) {
 		return
 	}
 	self, _ := os.Executable()
-	syscalls := []string{"unlinkat", "renameat,renameat2,rename", "mkdirat,mkdir"}
+	kf03 := run.KnownOpen("KF03")
+	syscalls := []string{"unlinkat", "renameat,renameat2,rename", "mkdirat,mkdir", "write,pwrite64"}
+	// the program of the write group stores values of 40 and 100 KiB: one journal record then spans several 32 KiB
+	// journal blocks, i.e. several write(2) calls, and the process is killed between them
+	hugeVals := []string{strings.Repeat("J", 100<<10), strings.Repeat("k", 40<<10), "v", strings.Repeat("m", 33<<10)}
 	nprog := run.N(1, 6)
 	maxN := run.N(30, 120)
 	type job struct{ prog, sc, n int }
@@ -880,11 +888,21 @@ func c08SyscallKills(run *common.Run, base string) {
 		}
 		r := run.Rand("C08.syskill", jb.prog) // the same program for every N
 		for step := 0; step < 40 && !died; step++ {
-			req := c08Gen(r, reg, false, false, firstDef)
-			if step%4 == 3 {
+			var pool []string
+			if jb.sc == 3 {
+				pool = hugeVals
+			}
+			req := c08Gen(r, reg, kf03, false, firstDef, pool...)
+			if step%4 == 3 && jb.sc != 3 {
 				// every fourth request clears a table (close database, remove directory, re-open)
 				for tries := 0; tries < 200 && !strings.Contains(req.desc, "all=true"); tries++ {
-					req = c08Gen(r, reg, false, false, firstDef)
+					req = c08Gen(r, reg, kf03, false, firstDef)
+				}
+			}
+			if jb.sc == 3 && step%2 == 1 {
+				// every second request of the write group is a data write
+				for tries := 0; tries < 200 && !strings.HasPrefix(req.desc, "MutateRow"); tries++ {
+					req = c08Gen(r, reg, kf03, false, firstDef, pool...)
 				}
 			}
 			st := req.send(srv)
